@@ -166,6 +166,13 @@ impl CommonPageResource {
         if new_head.is_zero() {
             return Address::ZERO;
         }
+        #[cfg(mmtk_verif)]
+        crate::verif::verif_emit_chunks(
+            "ChunksAlloc",
+            space_descriptor.get_index(),
+            new_head,
+            chunks,
+        );
 
         *head_discontiguous_region = new_head;
         new_head
@@ -176,6 +183,13 @@ impl CommonPageResource {
     pub fn release_discontiguous_chunks(&self, chunk: Address) {
         let mut head_discontiguous_region = self.head_discontiguous_region.lock().unwrap();
         debug_assert!(chunk == conversions::chunk_align_down(chunk));
+        #[cfg(mmtk_verif)]
+        crate::verif::verif_emit_chunks(
+            "ChunksFree",
+            0,
+            chunk,
+            self.vm_map.get_contiguous_region_chunks(chunk),
+        );
         if chunk == *head_discontiguous_region {
             *head_discontiguous_region = self.vm_map.get_next_contiguous_region(chunk);
         }
@@ -186,6 +200,8 @@ impl CommonPageResource {
 
     pub fn release_all_chunks(&self) {
         let mut head_discontiguous_region = self.head_discontiguous_region.lock().unwrap();
+        #[cfg(mmtk_verif)]
+        crate::verif::verif_emit_chunks("ChunksFreeAll", 0, *head_discontiguous_region, 0);
         self.vm_map.free_all_chunks(*head_discontiguous_region);
         *head_discontiguous_region = Address::ZERO;
     }
